@@ -5,6 +5,14 @@ E1 search to closure over writes / deletes / relate / unrelate on one instance,
 each name written in every case pattern; in every state every read route
 (getattr under every spelling, serialisation, where_eq, dict filter) is
 compared with a reference dict keyed by the upper-cased name.
+
+Second family ("twins"): two observed instances of two classes whose attribute
+names differ only in letter case (Id/iD, _Tg/_tG -- one plain name with a
+leading underscore, one identifying name, one referential name with a leading
+underscore), in one metamodel (linked) or in two metamodels of the same process
+(unlinked). Every write/delete/constructor form on either instance is
+followed by every read route on BOTH instances, so a spelling resolved for one
+class is afterwards used on the other.
 '''
 import itertools
 import json
@@ -16,6 +24,9 @@ ASSUMPTIONS = [
     'names of two or three letters, all 2^n case patterns; one observed instance plus one referred instance',
     'values from a three-value alphabet per attribute type',
     'after a deletion the statement only fixes that every spelling behaves alike; both "unset" and AttributeError are accepted',
+    'twin family: two classes Pq(Id, _Tg) / Rs(iD, _tG, _Rf) whose attribute names differ only in letter case, names with a '
+    'leading underscore (plain and referential); layouts: one metamodel with the pair linked, two metamodels (pair '
+    'unlinked); two values per attribute, deletion of the plain attribute only; constructor keywords under every attribute spelling (class spelling cycled)',
 ]
 
 SQL = ('CREATE TABLE Ab (Id UNIQUE_ID, Xy STRING, R_a UNIQUE_ID);\n'
@@ -313,6 +324,334 @@ class NameModel(explorer.Model):
                     bad('attribute_type', 'attribute_type(%r) is %r' % (s, t), TYPES[u], t)
 
 
+# ---------------------------------------------------------------------------------------------------------------------
+# twin family: two classes whose attribute names differ only in letter case; names with a leading underscore
+# ---------------------------------------------------------------------------------------------------------------------
+TWIN_SQL = ('CREATE TABLE Pq (Id UNIQUE_ID, _Tg STRING);\n'
+            'CREATE TABLE Rs (iD UNIQUE_ID, _tG STRING, _Rf UNIQUE_ID);\n'
+            'CREATE ROP REF_ID R2 FROM MC Rs (_Rf) TO 1C Pq (Id);\n'
+            'CREATE UNIQUE INDEX I1 ON Pq (Id);\n'
+            'CREATE UNIQUE INDEX I1 ON Rs (iD);\n')
+TWIN_KIND = {'p': 'Pq', 'r': 'Rs'}
+TWIN_DECL = {'p': ['Id', '_Tg'], 'r': ['iD', '_tG', '_Rf']}
+TWIN_TYPES = {'ID': 'UNIQUE_ID', '_TG': 'STRING', '_RF': 'UNIQUE_ID'}
+TWIN_VALS = {'ID': [7, 8], '_TG': ['', 'q']}       # the initial values are members of the alphabet
+TWIN_LAYOUTS = ['linked', 'separate']
+TWIN_DELETABLE = ('_TG',)                         # (deleting an identifying attribute: first family)
+
+
+class TwinModel(explorer.Model):
+    def __init__(self, tier, layout, seed=0):
+        self.tier = tier
+        self.layout = layout
+        self.sp = dict((n, spellings(n)) for n in ('ID', '_TG', '_RF'))
+        self.kinds = dict((who, spellings(k)) for who, k in TWIN_KIND.items())
+
+    def case(self, hist, op):
+        return dict(family='twin', layout=self.layout, hist=hist, op=op, tier=self.tier)
+
+    def build(self, hist):
+        import xtuml
+        w = World()
+        l = xtuml.ModelLoader()
+        l.input(TWIN_SQL)
+        mp = l.build_metamodel(xtuml.IntegerGenerator())
+        mr = mp if self.layout != 'separate' else l.build_metamodel(xtuml.IntegerGenerator())
+        w.m = {'p': mp, 'r': mr}
+        w.inst = {'p': mp.new('Pq', Id=7), 'r': mr.new('Rs', iD=8)}
+        w.ref = {'p': {'ID': 7, '_TG': ''}, 'r': {'ID': 8, '_TG': ''}}
+        w.linked = False
+        if self.layout == 'linked':
+            xtuml.relate(w.inst['r'], w.inst['p'], 2)
+            w.linked = True
+        w.written = set()
+        for op in hist:
+            self.step(w, op)
+        return w
+
+    def canon(self, w):
+        proxy = []
+        for who in ('p', 'r'):
+            try:
+                proxy.append(sorted(w.inst[who].__dict__.keys()))
+            except Exception:
+                proxy.append(None)
+        return json.dumps([sorted(w.ref['p'].items()), sorted(w.ref['r'].items()), proxy], default=repr)
+
+    def enabled(self, w):
+        ops = []
+        for who in ('p', 'r'):
+            for u in ('ID', '_TG'):
+                for s in self.sp[u]:
+                    for v in TWIN_VALS[u]:
+                        ops.append(['set', who, s, v])
+                    if u in TWIN_DELETABLE:
+                        ops.append(['del', who, s])
+        for s in self.sp['_RF']:
+            ops.append(['set', 'r', s, 7])
+        # constructor keywords: terminal transitions (checked, not expanded); the product class spelling x attribute
+        # spelling is covered by the first family, here the class spelling is cycled
+        for who in ('p', 'r'):
+            n = 0
+            for u in ('ID', '_TG'):
+                for s in self.sp[u]:
+                    ops.append(['new', who, self.kinds[who][n % 4], {s: TWIN_VALS[u][1]}])
+                    n += 1
+        for s in self.sp['_RF']:
+            ops.append(['new', 'r', self.kinds['r'][n % 4], {s: 7}])
+            n += 1
+        return ops
+
+    def step(self, w, op):
+        import xtuml
+        name, who = op[0], op[1]
+        u = op[2].upper()
+        try:
+            if name == 'set':
+                if u == '_RF':
+                    exp = 'MetaException'
+                else:
+                    exp = 'ok'
+                    w.ref[who][u] = op[3]
+                    w.written.add((who, op[2]))
+                setattr(w.inst[who], op[2], op[3])
+                return 'ok', exp
+            if name == 'del':
+                exp = 'ok' if w.ref[who][u] != DELETED else 'error'
+                w.ref[who][u] = DELETED
+                delattr(w.inst[who], op[2])
+                return 'ok', exp
+        except xtuml.MetaException as e:
+            return ('MetaException' if type(e).__name__ == 'MetaException' else type(e).__name__), exp
+        except (AttributeError, KeyError) as e:
+            return 'error', exp
+        raise ValueError(op)
+
+    def expected(self, w, who, u):
+        if u == '_RF':
+            return w.ref['p']['ID'] if w.linked else None
+        return w.ref[who][u]
+
+    def attrs(self, who):
+        return ('ID', '_TG') if who == 'p' else ('ID', '_TG', '_RF')
+
+    def apply(self, ctx, w, op, hist):
+        case = self.case(hist, op)
+
+        def bad(kind, msg, exp=None, got=None):
+            ctx.violation('c10:twin:%s' % kind, case, '[%s] history %s, then %s: %s' % (self.layout, hist, op, msg), exp, got,
+                          unit_test=twin_unit_test(self.layout, hist, op))
+        ctx.count('traces')
+        ctx.count('twin_traces')
+        if op[0] == 'new':
+            return self.apply_new(ctx, w, op, bad)
+        got, exp = self.step(w, op)
+        ctx.distinct('outcomes', (op[0], got))
+        if got != exp and not (op[0] == 'del' and exp == 'error'):
+            bad('%s:outcome' % op[0], 'outcome %s, expected %s' % (got, exp), exp, got)
+            return False
+        return self.check_reads(ctx, w, bad, op[0])
+
+    def apply_new(self, ctx, w, op, bad):
+        import xtuml
+        who = op[1]
+        m = w.m[who]
+        exp = dict((u, None if u != '_TG' else '') for u in self.attrs(who))
+        try:
+            inst = m.new(op[2], **op[3])
+        except Exception as e:
+            bad('new:exception', 'creation raised %s: %s' % (type(e).__name__, e), 'instance', type(e).__name__)
+            return False
+        for k, v in op[3].items():
+            exp[k.upper()] = v
+        if '_RF' in exp and not (exp['_RF'] is not None and w.ref['p']['ID'] == exp['_RF'] and self.layout != 'separate'):
+            exp['_RF'] = None          # a referential value that matches no instance links nothing
+        decl = dict((d.upper(), d) for d in TWIN_DECL[who])
+        got = dict((u, getattr(inst, decl[u], DELETED)) for u in exp)
+        if exp['ID'] is None:
+            exp['ID'] = got['ID']      # defaulted id: any fresh value
+        if got != exp:
+            bad('new:values', 'created instance reads %s, expected %s' % (got, exp), exp, got)
+            return False
+        can_query = DELETED not in list(w.ref['p'].values()) + list(w.ref['r'].values())
+        for u in self.attrs(who):
+            for s in self.sp[u]:
+                ctx.count('reads')
+                g = getattr(inst, s, DELETED)
+                if g != exp[u]:
+                    bad('new:read', 'created instance reads %r under the spelling %r but %r under the declared one' %
+                        (g, s, exp[u]), exp[u], g)
+                    return False
+                if exp[u] is not None and can_query:
+                    hit = inst in list(m.select_many(TWIN_KIND[who], xtuml.where_eq(**{s: exp[u]})))
+                    if not hit:
+                        bad('new:where_eq', 'where_eq(%s=%r) misses the created instance' % (s, exp[u]), True, hit)
+                        return False
+        # ... and the instances that existed before still read as before under every spelling
+        self.check_reads(ctx, w, bad, 'new')
+        return False       # terminal
+
+    def check_reads(self, ctx, w, bad, opname):
+        import xtuml
+        for who in ('p', 'r'):
+            inst = w.inst[who]
+            for u in self.attrs(who):
+                exp = self.expected(w, who, u)
+                seen = []
+                for s in self.sp[u]:
+                    ctx.count('reads')
+                    try:
+                        got = getattr(inst, s)
+                    except AttributeError:
+                        got = DELETED
+                    seen.append(got)
+                    if exp != DELETED and got != exp:
+                        bad('%s:read' % opname, 'reading %s.%s gives %r, expected %r (written spellings so far: %s)' %
+                            (who, s, got, exp, sorted(w.written)), exp, got)
+                        return False
+                if exp == DELETED:
+                    norm = [DELETED if g in (None, DELETED) else g for g in seen]
+                    if len(set(map(repr, norm))) != 1 or norm[0] != DELETED:
+                        bad('%s:read-after-delete' % opname, 'after deletion the spellings %s of %s read %s' %
+                            (self.sp[u], who, seen), 'all alike and unset', seen)
+                        return False
+        if DELETED in list(w.ref['p'].values()) + list(w.ref['r'].values()):
+            return True
+        # the value serialised and the value matched by queries
+        for who in ('p', 'r'):
+            inst = w.inst[who]
+            text = xtuml.serialize_instance(inst)
+            vals = [xtuml.serialize_value(self.expected(w, who, u), TWIN_TYPES[u]) for u in self.attrs(who)]
+            exp_text = 'INSERT INTO %s VALUES (%s);' % (TWIN_KIND[who], ', '.join(vals))
+            ctx.count('reads')
+            if norm_text(text) != norm_text(exp_text):
+                bad('%s:serialize' % opname, 'serialize_instance(%s) gives %r, expected %r' % (who, text, exp_text), exp_text, text)
+                return False
+            for u in self.attrs(who):
+                for s in self.sp[u]:
+                    for v in TWIN_VALS['ID' if u == '_RF' else u]:
+                        for form in ('kw', 'dict'):
+                            ctx.count('reads')
+                            q = xtuml.where_eq(**{s: v}) if form == 'kw' else {s: v}
+                            hit = inst in list(w.m[who].select_many(self.kinds[who][len(s) % 4], q))
+                            want = self.expected(w, who, u) == v
+                            if hit != want:
+                                bad('%s:where_eq' % opname, 'where_eq(%s=%r) %s the %s instance whose value is %r' %
+                                    (s, v, 'matches' if hit else 'misses', TWIN_KIND[who], self.expected(w, who, u)), want, hit)
+                                return False
+        return True
+
+    def probes(self, ctx, w, hist):
+        case = self.case(hist, ['probe'])
+
+        def bad(kind, msg, exp=None, got=None):
+            ctx.violation('c10:twin:%s' % kind, case, '[%s] state %s: %s' % (self.layout, hist, msg), exp, got)
+        self.check_reads(ctx, w, bad, 'state')
+        for who in ('p', 'r'):
+            mc = w.m[who].find_metaclass(TWIN_KIND[who])
+            for u in self.attrs(who):
+                for s in self.sp[u]:
+                    ctx.count('reads')
+                    t = mc.attribute_type(s)
+                    if t is None or t.upper() != TWIN_TYPES[u]:
+                        bad('attribute_type', 'attribute_type(%r) of %s is %r' % (s, TWIN_KIND[who], t), TWIN_TYPES[u], t)
+
+
+def twin_unit_test(layout, hist, op):
+    lines = ['import xtuml', 'l = xtuml.ModelLoader()', 'l.input(%r)' % TWIN_SQL,
+             'mp = l.build_metamodel(xtuml.IntegerGenerator())',
+             'mr = mp' if layout != 'separate' else 'mr = l.build_metamodel(xtuml.IntegerGenerator())',
+             "p = mp.new('Pq', Id=7); r = mr.new('Rs', iD=8)"]
+    if layout == 'linked':
+        lines.append('xtuml.relate(r, p, 2)')
+
+    def stmt(o):
+        if o[0] == 'set':
+            return '%s.%s = %r' % (o[1], o[2], o[3])
+        if o[0] == 'del':
+            return 'del %s.%s' % (o[1], o[2])
+        return 'b = m%s.new(%r, **%r)' % (o[1], o[2], o[3])
+    for o in hist:
+        lines.append(stmt(o))
+    lines.append(stmt(op) + '   # <- failing step')
+    lines.append('print([(s, getattr(p, s, None)) for s in %r])' % (spellings('Id') + spellings('_Tg'),))
+    lines.append('print([(s, getattr(r, s, None)) for s in %r])' % (spellings('Id') + spellings('_Tg') + spellings('_Rf'),))
+    return '\n'.join(lines)
+
+
+TWIN_SLICE = 8          # operations of one state executed per task (keeps the critical path of a level short)
+TWIN_MAX_DEPTH = 12     # closes at depth 5 on a conforming implementation
+
+
+def _twin_expand(sub, args):
+    """One slice of the operations enabled in one state (explorer._expand, sliced)."""
+    layout, hist, lo = args
+    model = TwinModel(sub.tier, layout, sub.seed)
+    ok, world = explorer.guarded(sub, model, hist, None, lambda: model.build(hist))
+    if not ok:
+        return []
+    if lo == 0:
+        sub.count('states_expanded')
+        ok, _ = explorer.guarded(sub, model, hist, None, lambda: model.probes(sub, world, hist))
+        if not ok:
+            return []
+    ops = explorer.rotate(model.enabled(world), sub.seed)[lo:lo + TWIN_SLICE]
+    out = []
+    for op in ops:
+        sub.count('transitions')
+
+        def one():
+            w = model.build(hist)
+            if model.apply(sub, w, op, hist):
+                return model.canon(w)
+            return None
+        ok, key = explorer.guarded(sub, model, hist, op, one)
+        if ok and key is not None:
+            out.append((key, op))
+    return [out]
+
+
+def twin_bfs(ctx):
+    """Search to closure over all layouts at once; a task is (layout, state, slice of the enabled operations)."""
+    seen, frontier = {}, []
+    for layout in TWIN_LAYOUTS:
+        model = TwinModel(ctx.tier, layout, ctx.seed)
+        ok, w = explorer.guarded(ctx, model, [], None, lambda: model.build([]))
+        if not ok:
+            continue
+        seen[(layout, model.canon(w))] = []
+        frontier.append((layout, [], len(model.enabled(w))))
+    depth, closed = 0, True
+    while frontier:
+        if depth >= TWIN_MAX_DEPTH:
+            closed = False
+            ctx.cap('twins: depth bound %d reached with %d unexpanded states' % (TWIN_MAX_DEPTH, len(frontier)))
+            break
+        tasks = [(layout, h, lo) for layout, h, n in frontier for lo in range(0, n, TWIN_SLICE)]
+        results = ctx.pmap(_twin_expand, tasks, chunk=1)
+        nxt = []
+        for (layout, h, lo), succ in zip(tasks, results):
+            for k, op in succ:
+                if (layout, k) not in seen:
+                    seen[(layout, k)] = h + [op]
+                    nxt.append((layout, h + [op], None))
+        # the menu does not depend on the state
+        n_ops = frontier[0][2]
+        frontier = [(layout, h, n_ops) for layout, h, _ in nxt]
+        depth += 1
+        if ctx.time_left() < 0 and frontier:
+            closed = False
+            ctx.cap('twins: time budget reached at depth %d' % depth)
+            break
+    per = {}
+    for layout, _ in seen:
+        per[layout] = per.get(layout, 0) + 1
+    ctx.count('states', len(seen))
+    ctx.count('twin_states', len(seen))
+    ctx.notes.setdefault('twins', {}).update(states=len(seen), depth=depth, closed=closed)
+    return dict(states=len(seen), depth=depth, closed=closed, per_layout=per)
+
+
 def norm_text(text):
     import re
     text = re.sub(r'--[^\n]*', '', text)
@@ -343,16 +682,24 @@ def unit_test(hist, op):
 def run(ctx):
     m = NameModel(ctx.tier, ctx.seed)
     res = explorer.bfs(ctx, m, chunk=4, label='names')
-    print('  states=%d depth=%d closed=%s' % (res['states'], res['depth'], res['closed']))
+    print('  states=%d depth=%d closed=%s t=%.1fs' % (res['states'], res['depth'], res['closed'], ctx.elapsed()))
     hs = sorted(res['seen'].values(), key=lambda h: (len(h), repr(h)))
     for h in hs[-3:]:
         ctx.sample(dict(history=h))
     ctx.require(res['states'] >= 100, 'too few states (%d)' % res['states'])
+    r2 = twin_bfs(ctx)
+    print('  twins: states=%s depth=%d closed=%s t=%.1fs' % (r2['per_layout'], r2['depth'], r2['closed'], ctx.elapsed()))
+    for layout in TWIN_LAYOUTS:
+        ctx.require(r2['per_layout'].get(layout, 0) >= 30, 'twin family %s: too few states (%s)' % (layout, r2['per_layout']))
+    ctx.require(ctx.n('twin_traces') >= 3000, 'twin family: too few transitions (%d)' % ctx.n('twin_traces'))
     ctx.require(ctx.n('reads') >= 10000, 'too few reads compared')
     ctx.require(ctx.nd('outcomes') >= 6, 'too few distinct outcomes (%d)' % ctx.nd('outcomes'))
 
 
 def replay(ctx, case):
+    if case.get('family') == 'twin':
+        m = TwinModel(case.get('tier', 'quick'), case['layout'])
+        return explorer.replay_case(ctx, m, case['hist'], case.get('op'))
     m = NameModel(case.get('tier', 'quick'))
     explorer.replay_case(ctx, m, case['hist'], case.get('op'))
 
@@ -368,7 +715,11 @@ def coverage(ctx):
         distinct_outcomes=ctx.nd('outcomes'),
         rule='closure over (reference values, relate flag, set of spellings written, keys of the instance dict); in every '
              'state every write/delete under every case pattern, relate/unrelate and every constructor form is executed and '
-             'every read route compared; distinct_nontrivial = number of distinct canonical states',
-        bounds=dict(names=DECL, case_patterns='all 2^n', values=VALS),
+             'every read route compared; distinct_nontrivial = number of distinct canonical states; twin family: the same '
+             'closure over two instances of two classes whose attribute names differ only in letter case (leading '
+             'underscores included), every operation followed by every read route on both instances',
+        bounds=dict(names=DECL, case_patterns='all 2^n', values=VALS,
+                    twin_family=dict(classes=TWIN_DECL, layouts=TWIN_LAYOUTS, values=TWIN_VALS, states=ctx.n('twin_states'),
+                                     transitions=ctx.n('twin_traces'))),
         exhaustive=bool(closed) and not ctx.caps_hit,
     )
